@@ -15,6 +15,7 @@ import Circomspect.Model.SignalAssign
 import Circomspect.Model.Includes
 import Circomspect.Model.Taint
 import Circomspect.Lemmas.PathValues
+import Circomspect.Lemmas.PathDegrees
 import Driver.Sexp
 import Driver.DesugarCmd
 
@@ -698,11 +699,21 @@ def pathhypsCmd (rest : String) : String :=
   | some c =>
     let g := irCfg c
     let P := Propagate.stmtsOf g.blocks
-    if Propagate.singleDefB P then s!"singledef subs={(P.filterMap Propagate.defVar).length}"
-    else
-      let ks := P.filterMap Propagate.defKey
-      let dup := ((ks.filter (fun k => ks.any (fun k' => k'.1 == k.1 && !(k.2 && k'.2)) && (ks.filter (·.1 == k.1)).length > 1)).map (·.1)).eraseDups
-      "multi " ++ " ".intercalate (dup.map (fun v => v.name ++ (match v.suffix with | some s => "_" ++ s | none => "") ++ (match v.version with | some k => s!".{k}" | none => "")))
+    let sd :=
+      if Propagate.singleDefB P then s!"singledef subs={(P.filterMap Propagate.defVar).length}"
+      else
+        let ks := P.filterMap Propagate.defKey
+        let dup := ((ks.filter (fun k => ks.any (fun k' => k'.1 == k.1 && !(k.2 && k'.2)) && (ks.filter (·.1 == k.1)).length > 1)).map (·.1)).eraseDups
+        "multi " ++ " ".intercalate (dup.map (fun v => v.name ++ (match v.suffix with | some s => "_" ++ s | none => "") ++ (match v.version with | some k => s!".{k}" | none => "")))
+    -- the hypothesis `WfD` of the degree theorems, clause by clause (for the evidence)
+    let E := Propagate.programOf g
+    let c1 := decide ((E.filterMap Propagate.defVar).Pairwise (Propagate.singleOk E))
+    let c2 := E.all (fun s => (Propagate.nlNames s).all (fun v => !Propagate.localDeclB E v && !g.params.contains v))
+    let c3 := g.params.all (fun v => !Propagate.hasSubB E v)
+    let c4 := Propagate.posOKB E [] E
+    let wf := if Propagate.wfDB E g.params then "wfd" else
+      "notwfd:" ++ (if c1 then "" else "single,") ++ (if c2 then "" else "types,") ++ (if c3 then "" else "params,") ++ (if c4 then "" else "pos,")
+    sd ++ " | " ++ wf
   | none => "bad-op"
 
 def handle (line : String) : String :=
